@@ -1183,3 +1183,112 @@ func S16(rc *RC, floor int) {
 		}
 	}
 }
+
+// S17: the concatenation shape calculator compares every dimension. Shape.Concat sums the
+// extents along the axis and must refuse operands that differ in ANY other dimension: the loop
+// that carries the comparison newShape[d] != shp[d] runs over all dimensions from 0 (the axis
+// itself is the only one exempt), otherwise mismatching leading dimensions are accepted and the
+// copy that follows broadcasts or leaves gaps.
+func S17(rc *RC) {
+	rc.S.Declare("S17", "concatenation shape: in Shape.Concat the loop comparing the operands' dimensions starts at dimension 0 and covers all dimensions of the shape; only the concatenation axis is exempt", 1)
+	fi := anchor(rc, "S17", "tensor.(Shape).Concat")
+	if fi == nil {
+		return
+	}
+	pos := rc.P.Pos(fi.Decl.Pos())
+	c := ir.NewCanon(rc.P.Fset, fi.Pkg.TypesInfo, ir.Options{ParamNames: true, KeepNames: true, NoSubst: true})
+	tree := c.Func(fi.Decl)
+	var bad []string
+	found := 0
+	var walk func(ns []*ir.Node, inits map[string]string)
+	walk = func(ns []*ir.Node, inits map[string]string) {
+		for _, n := range ns {
+			if (n.Kind == "let" || n.Kind == "store") && ldIdent.FindString(n.Target) == n.Target {
+				inits[n.Target] = n.Value
+			}
+			if n.Kind == "loop" {
+				body := ir.Render(n.Kids)
+				m := regexp.MustCompile(`^for \(([^>]+) > (%\w+)\)`).FindStringSubmatch(n.Head)
+				if m != nil && regexp.MustCompile(`\[`+regexp.QuoteMeta(m[2])+`\] != [%$][\w@\[\]]*\[`+regexp.QuoteMeta(m[2])+`\]`).MatchString(body) {
+					found++
+					v := m[2]
+					if inits[v] != "0" {
+						bad = append(bad, fmt.Sprintf("the comparison loop starts at %s = %s, not at dimension 0", v, inits[v]))
+					}
+					bound := strings.TrimSpace(m[1])
+					if bound != "%dims" && bound != "$r.Dims()" && bound != "len($r)" && bound != "len(%newShape)" {
+						bad = append(bad, "the comparison loop is bounded by "+bound+", not by the number of dimensions")
+					}
+					// the only exemption inside the loop is the axis
+					for _, k := range flatten(n.Kids) {
+						if k.Kind == "if" && strings.Contains(k.Head, v) && !strings.Contains(k.Head, "!=") && !strings.Contains(k.Head, "$axis") {
+							bad = append(bad, "a dimension other than the axis is exempted: "+k.Head)
+						}
+					}
+				}
+			}
+			walk(n.Kids, inits)
+			walk(n.Else, inits)
+		}
+	}
+	walk(tree, map[string]string{})
+	if found == 0 {
+		rc.S.Viol("S17", "tensor.(Shape).Concat#compare", pos, "no loop comparing the operands' dimensions found").Sig = "no comparison"
+		return
+	}
+	if len(bad) > 0 {
+		rc.S.Viol("S17", "tensor.(Shape).Concat#compare", pos, strings.Join(uniq(bad), "; ")).Sig = firstWords(bad)
+	} else {
+		rc.S.Ok("S17", "tensor.(Shape).Concat#compare", pos, "all dimensions from 0 compared, axis exempt")
+	}
+}
+
+// S18: a lazily transposed pattern says so. AP.S (rule S12), RequiresIterator's callers and the
+// formatter rely on the Transposed bit of the data order to know that the strides are not the
+// default strides of the shape. Every path of AP.T that builds a permuted pattern hands
+// MakeAP an order obtained by *setting* Transposed on the receiver's order - never a cleared
+// or toggled one (two successive lazy transposes are still a lazy transpose).
+func S18(rc *RC) {
+	rc.S.Declare("S18", "transposed flag: on every path of AP.T that returns a permuted access pattern the data order handed to MakeAP is MakeDataOrder(ap.o, Transposed) (set, never cleared or toggled)", 1)
+	fi := anchor(rc, "S18", "tensor.(*AP).T")
+	if fi == nil {
+		return
+	}
+	pos := rc.P.Pos(fi.Decl.Pos())
+	c := ir.NewCanon(rc.P.Fset, fi.Pkg.TypesInfo, ir.Options{ParamNames: true, KeepNames: true, NoSubst: true})
+	tree := c.Func(fi.Decl)
+	paths, ok := ir.EnumPaths(tree, 5000)
+	if !ok {
+		rc.S.Undec("S18", fi.Key, pos, "too many paths")
+		return
+	}
+	var bad []string
+	n := 0
+	for _, p := range paths {
+		for i, st := range p.Steps {
+			j := strings.Index(st.Head, "MakeAP(")
+			if j < 0 {
+				continue
+			}
+			args := splitArgs(st.Head[j+len("MakeAP(") : strings.LastIndex(st.Head, ")")])
+			if len(args) < 3 {
+				continue
+			}
+			n++
+			env := pathEnv(ir.Path{Steps: p.Steps[:i]})
+			o := substEnv(args[2], env)
+			if o != "MakeDataOrder($r.o, Transposed)" && o != "MakeDataOrder(Transposed, $r.o)" {
+				bad = append(bad, fmt.Sprintf("on the path [%s] the order handed to MakeAP is %s", strings.Join(p.Guards, " && "), o))
+			}
+		}
+	}
+	if n == 0 {
+		rc.S.Undec("S18", fi.Key, pos, "no MakeAP call found")
+		return
+	}
+	if len(bad) > 0 {
+		rc.S.Viol("S18", fi.Key, pos, strings.Join(uniq(bad), "; ")).Sig = firstWords(bad)
+	} else {
+		rc.S.Ok("S18", fi.Key, pos, fmt.Sprintf("%d path(s), order = MakeDataOrder(ap.o, Transposed)", n))
+	}
+}
